@@ -275,7 +275,9 @@ def variants(tier, name):
     Processes do not share the attribute, so the quick tier lets each caller meet one competitor per class
     instead of all nine pairs: it leaves out the tuples in which two callers new to the database have the
     same letter ('AA', 'OO': 'AO' has an 'A' and an 'O' caller each racing a new competitor; 'AT', 'OT',
-    'TT' pair every state with an initialised competitor).  The thorough tier runs every tuple."""
+    'TT' pair every state with an initialised competitor).  The thorough tier runs every tuple for two callers;
+    for three callers (D6) the uniform tuples and the tuples with one caller of each state (every pair of states
+    meets, each in every caller role up to symmetry)."""
     texts, initial, _ = drivers(tier)[name]
     n = len(texts)
     out = [("threads", s) for s in PSTATES]
@@ -285,6 +287,8 @@ def variants(tier, name):
             continue
         if tier == "quick" and (tup.count("A") > 1 or tup.count("O") > 1):
             continue
+        if n > 2 and 1 < len(set(tup)) < n:
+            continue  # three callers: every state among its like, and one caller of each state in every role
         out.append(("processes", "".join(tup)))
     return out
 
@@ -461,9 +465,13 @@ def _run_schedule(name, mode, pst, prefix, labels, texts, initial, kw, b, mods, 
             # have left initialisation unfinished (the next call re-checks): the layout is judged when every
             # call succeeded and either the database was sound from the start (nobody may break it) or some
             # caller that is new to it got through without a BUSY answer (it ran the whole initialisation)
+            # Not judged either when a file was removed under a caller: that is reported above on its own, and
+            # what follows (the victim initialises an unlinked file whose journal has the same name as the new
+            # file's; either caller may go on without the cache for that) is the same defect seen again.
             backed_off = {e[1] for e in reg.events if e[0].startswith("busy")}
+            removed_in_use = any(e[0] == "remove-in-use" for e in reg.events)
             new_done = any(pst[i if mode == "processes" else 0] != "T" and i not in backed_off for i in range(n))
-            if (initial.startswith("holds-") or new_done) and all(r[0] == "ok" for r in exe.results()):
+            if (initial.startswith("holds-") or new_done) and not removed_in_use and all(r[0] == "ok" for r in exe.results()):
                 if cols != ["txt_hash", "pymoca_version", "data", "last_hit"] or mcols != ["key", "value"]:
                     viol.append((name.split("-")[0] + ":layout-wrong-at-end", "tables after the run: models%r metadata%r" % (cols, mcols)))
         except real_sqlite3.Error as e:
